@@ -25,8 +25,22 @@
     alone but creates the memmap when there is none ([fid.seek(0, 2)] inside [numpy.memmap]: commits
     everything pending, and later writes through [__setitem__] no longer pass through that seek);
     [Query] ([len(store)], [i in store], [len(store.array)]) touches neither the file nor the
-    object.  Kill points are numbered over *all* low-level operations, memmap writes included.   *)
-From Coq Require Import List NArith Arith Bool.
+    object.  Kill points are numbered over *all* low-level operations, memmap writes included.
+
+    Memory layouts.  The batch handed to [store[i] = a] is an n-dimensional array in whatever
+    memory layout the caller has it: C order, Fortran order, a transposed view, every second
+    element of a wider buffer, negative strides, a window at an offset, a broadcast row, read-only
+    ... -- [Store/Layout.v]: shape + one stride per axis + offset into a buffer of element codes
+    (code = the integer of the element's bytes in the store's dtype, so every dtype is covered).
+    [NpyArray.append] writes [array.tobytes('C')], [__setitem__] assigns through a row-major memmap:
+    both store the array's LOGICAL content, [nd_rows a] = row [r], cell at the row-major position of
+    [idx] = [a[r, idx]], whatever the strides.  The histories the harness supplies are lists of
+    [iop]: [IArr i good a] carries the array as (shape, strides, offset, buffer) and is lowered to
+    [Set_ i good (nd_rows a)]; the specification ([spec]) therefore holds the logical content of
+    what was handed in, and the low-level trace, the reports after every operation, numpy.load after
+    every flush and the file left by every kill are all compared with it.                        *)
+From Coq Require Import List NArith ZArith Arith Bool.
+From Elfi Require Import Store.Layout.
 Import ListNotations.
 
 Definition row := list N.          (* one row: its cells, each the integer of the item's raw bytes *)
@@ -214,6 +228,38 @@ Inductive hop :=
 
 Definition err (m : mem) : list lop * mem * bool := ([], m, true).
 
+(** ---- the batch as the caller hands it in: a strided window into a buffer ---- *)
+
+(** an element outside the buffer cannot occur for a well-formed description ([nd_inb]) *)
+Definition code (x : option Z) : N := match x with Some z => Z.to_N z | None => 0%N end.
+
+(** logical content by rows: row [r] = the elements [a[r, idx]], [idx] in row-major order *)
+Definition nd_rows (a : ndarray) : batch :=
+  match nd_shape a with
+  | [] => []
+  | n :: rs => map (fun r => map (fun idx => code (elem a (r :: idx))) (c_indices rs)) (seq 0 n)
+  end.
+
+(** the window stays inside its buffer and the element codes are non-negative *)
+Definition nd_inb (a : ndarray) : bool :=
+  forallb (fun x => match x with Some z => (0 <=? z)%Z | None => false end) (tobytes_C a).
+
+(** history operations as the caller issues them *)
+Inductive iop :=
+| IArr (i : nat) (good : bool) (a : ndarray)   (* store[i] = a;  [good] = a has the row shape and dtype of the store *)
+| IOp (op : hop).
+
+Definition lower (x : iop) : hop :=
+  match x with IArr i g a => Set_ i g (nd_rows a) | IOp op => op end.
+
+(** the multi-indices of a shape in column-major order (first axis fastest): the order in which
+    [tobytes('A')] / [tobytes('F')] emit a Fortran-contiguous array.  Only used by the example in
+    Properties/C06.v that shows why the serialisation must not follow the memory order. *)
+Definition f_indices (shape : list nat) : list (list nat) := map (@rev nat) (c_indices (rev shape)).
+Definition tobytes_F (a : ndarray) : list (option Z) := map (elem a) (f_indices (nd_shape a)).
+
+Definition iop_inb (x : iop) : bool := match x with IArr _ _ a => nd_inb a | IOp _ => true end.
+
 (** [NpyStore.__setitem__] / [ArrayStore.__setitem__] *)
 Definition st_set (v : variant) (bs : nat) (m : mem) (i : nat) (good : bool) (b : batch) : list lop * mem * bool :=
   if (i =? m_nb m) && (bs * i =? m_rows m) then
@@ -385,13 +431,16 @@ Record obs := {
 Record case := {
   c_variant : variant;               (* always [current] from the harness *)
   c_bs : nat;
-  c_ops : list hop;
+  c_in : list iop;                    (* the history; arrays as (shape, strides, offset, buffer) *)
   c_trace : list (list lop);          (* plain run: low-level operations issued by each store operation *)
   c_obs : list obs;                   (* observing run: after each operation *)
   c_trace_obs : list (list lop);      (* observing run: low-level operations of each op and of the reads that follow it *)
   c_oracle : list nat;                (* CPython's buffer behaviour for the plain run, per low-level operation *)
   c_crash : list (nat * option (list row))   (* kill on entering low-level operation number k (k done; memmap writes are numbered too): numpy.load of the file *)
 }.
+
+(** the history the model and the specification run on: every array replaced by its logical content *)
+Definition c_ops (c : case) : list hop := map lower (c_in c).
 
 Definition eqb_row (a b : row) : bool := if list_eq_dec N.eq_dec a b then true else false.
 Definition eqb_rows (a b : list row) : bool := if list_eq_dec (list_eq_dec N.eq_dec) a b then true else false.
@@ -486,7 +535,8 @@ Definition disk_at (v : variant) (bs : nat) (o : oracle) (ops : list hop) (k : n
 Definition agree (c : case) : bool :=
   let v := c_variant c in
   let o := oracle_of (c_oracle c) in
-  eqb_list (fun a b => eqb_list eqb_lop (fst a) b) (run_trace v (c_bs c) o 1 fresh_mem empty_file (c_ops c)) (c_trace c)
+  forallb iop_inb (c_in c)
+  && eqb_list (fun a b => eqb_list eqb_lop (fst a) b) (run_trace v (c_bs c) o 1 fresh_mem empty_file (c_ops c)) (c_trace c)
   && agree_obs (c_ops c) (run_obs v (c_bs c) (fun _ => 0) 1 fresh_mem empty_file (c_ops c)) (c_obs c) (c_trace_obs c)
   && forallb (fun kc => eqb_opt eqb_rows (loads (disk_at v (c_bs c) o (c_ops c) (fst kc))) (snd kc)) (c_crash c).
 
